@@ -33,7 +33,6 @@ fn any_cb_lru() -> (CbLru, Abs) {
     let a = any_abs(N, 0);
     unsafe { LOGN = 0 };
     let l: CbLru = build(&a, PoisonHasher, Some(RecCb));
-    assert!(l.verif_wf() && l.verif_abs() == a, "[builder] built state has the intended view");
     (l, a)
 }
 
